@@ -117,7 +117,7 @@ print(json.dumps(out))
 
 def family(e: int):
     """DSDL namespaces parameterised by the capacity 2**e (and 2**e - 1, 2**e + 3 for non-aligned remainders)."""
-    cap = 2 ** e
+    cap = 2 ** e if e >= 0 else -e      # a negative "exponent" -n stands for the small capacity n
     fs = {"ns/Sub.1.0.dsdl": "uint3 a\n@sealed\n", "ns/VarComp.1.0.dsdl": "uint8[<=7] v\n@sealed\n", "ns/Empty.1.0.dsdl": "@sealed\n"}
     n = 0
     for ek, et in ELEMS.items():
@@ -169,7 +169,7 @@ print("ok %d %.3f" % (len(types), time.time() - t0))
 def intrinsic_worker(arg):
     """A definition that READS `_offset_` (the idiom `@assert _offset_ % 8 == {0}`) behind an array of 2**e elements."""
     e, form = arg
-    cap = 2 ** e
+    cap = 2 ** e if e >= 0 else -e      # a negative "exponent" -n stands for the small capacity n
     body = {"assert-mod": "uint8[<=%d] data\n@assert _offset_ %% 8 == {0}\nuint8 tail\n@sealed\n" % cap,
             "extent-max": "uint8[<=%d] data\n@extent _offset_.max * 2\n" % cap}[form]
     with dsdlio.Tree({"ns/UsesOffset.1.0.dsdl": body}, "c16i") as tr:
@@ -214,6 +214,8 @@ def run(ctx):
     from .. import apalache
     apalache.check(ctx, "ArithLemmas", ["EquivKLemma"] if ctx.tier == "quick" else ["EquivKLemma", "PadIdem", "PadShift"])
     exps = EXPS if ctx.tier == "quick" else [1, 2, 4, 7, 8, 9, 16, 24, 32, 33, 48, 63]
+    # capacities that are not powers of two and small enough for an exact treatment to look affordable (3, 6, 12 elements)
+    exps = list(exps) + ([-3, -6, -12] if ctx.tier == "quick" else [-3, -5, -6, -10, -12, -24])
     results = core.pmap(probe_worker, exps, procs=min(8, len(exps)), chunksize=1)
     recs, by_id = [], {}
     per_e = {}
